@@ -17,7 +17,7 @@ pub fn spec() -> Spec {
         replay,
         nshards: |_| 16,
         case_cap_s: |t| t.pick(300, 1800),
-        rule: "one case per (presentation, subgroup generating set): family 'named' = finite groups with independently known order x every set of <= 2 words of length <= L; family 'exhaustive' = every presentation on 2 generators with <= 3 relators among the rotation/inversion classes of cyclically reduced words of length <= 4 on which the reference Todd-Coxeter (HLT, row cap 300) terminates, x every set of <= 2 words of length <= 2; family 'spherical' = fundamental groups (crate presentation) of all spherical DSyms outputs over DSets(2, <= N) x trivial and one-word subgroups. Oracle: index by the reference Todd-Coxeter (= |G|/|H| where known), columns are mutually inverse permutations, transitive, every relator closes at every row, subgroup generators close at row 0, representatives trace to their rows. Non-trivial = index >= 2 and a non-empty generating set.",
+        rule: "one case per (presentation, subgroup generating set): family 'named' = finite groups with independently known order x every set of <= 2 words of length <= L; family 'exhaustive' = every presentation on 2 generators with <= 3 relators among the rotation/inversion classes of cyclically reduced words of length <= 4 on which the reference Todd-Coxeter (HLT, row cap 300) terminates, x every set of <= 2 words of length <= 2; family 'written-forms' = the named groups with one relator at a time replaced by each of its rotations, their inverses and its conjugates x r x^-1 (freely but not cyclically reduced), x trivial and one-letter subgroups; family 'spherical' = fundamental groups (crate presentation) of all spherical DSyms outputs over DSets(2, <= N) x trivial and one-word subgroups. Oracle: index by the reference Todd-Coxeter (= |G|/|H| where known), columns are mutually inverse permutations, transitive, every relator closes at every row, subgroup generators close at row 0, representatives trace to their rows. Non-trivial = index >= 2 and a non-empty generating set.",
         assumptions: &["family 'spherical' takes its presentations from fundamental_group (C09); any presentation is a valid input for this property, so this is a supply, not a trusted oracle"],
         bounds: |t| json!({"named_word_len": 3, "named_max_words": 2,
             "named_groups_subgroup_word_len": {"2 generators": t.pick(5, 6), "3+ generators": t.pick(3, 4)}, "exhaustive_2gens": {"relator_len": t.pick(5, 6), "max_relators": 3, "sub_word_len": 2, "max_words": 2},
@@ -215,6 +215,48 @@ fn run(ctx: &mut Ctx) {
                 let nonempty: Vec<Word> = subs.iter().filter(|w| !w.is_empty()).cloned().collect();
                 check_case(ctx, "empty-word", g.ng, &rels_e, &nonempty, g.order);
                 check_case(ctx, "empty-word", g.ng, &rels_f, &subs, g.order);
+            }
+        }
+    }
+    // family written-forms: the group does not depend on how a relator is written.  One relator at a time is
+    // replaced by each of its rotations, by the inverses of those, and by a conjugate x r x^-1 (freely but not
+    // cyclically reduced); subgroups: trivial, and one generated by each single letter
+    for g in finite_groups() {
+        let mut letters: Vec<Word> = vec![];
+        for a in 1..=g.ng as isize {
+            letters.push(vec![a]);
+        }
+        for (i, r) in g.rels.iter().enumerate() {
+            let mut forms: Vec<Word> = vec![];
+            for k in 0..r.len() {
+                let mut f = r[k..].to_vec();
+                f.extend_from_slice(&r[..k]);
+                let fi: Word = f.iter().rev().map(|x| -x).collect();
+                forms.push(f);
+                forms.push(fi);
+            }
+            for x in 1..=g.ng as isize {
+                for sx in [x, -x] {
+                    if r.first() != Some(&-sx) && r.last() != Some(&sx) {
+                        let mut c = vec![sx];
+                        c.extend_from_slice(r);
+                        c.push(-sx);
+                        forms.push(c);
+                    }
+                }
+            }
+            forms.sort();
+            forms.dedup();
+            for f in forms {
+                if &f == r || !ctx.take() {
+                    continue;
+                }
+                let mut rels = g.rels.clone();
+                rels[i] = f;
+                check_case(ctx, "written-forms", g.ng, &rels, &[], g.order);
+                for l in &letters {
+                    check_case(ctx, "written-forms", g.ng, &rels, &[l.clone()], g.order);
+                }
             }
         }
     }
